@@ -463,9 +463,21 @@ class PSBaseParser:
             # after a \ are ignored
             i += 1
 
+        elif c == b"\r" and len(s) == i + 1:
+            # The \n of a \r\n pair may be the first byte of the next buffer
+            self._parse1 = self._parse_string_lf
+            return i + 1
+
         # default action
         self._parse1 = self._parse_string
         return i + 1
+
+    def _parse_string_lf(self, s: bytes, i: int) -> int:
+        """Skip the \\n of a backslash \\r\\n line continuation split across buffers"""
+        self._parse1 = self._parse_string
+        if s[i : i + 1] == b"\n":
+            return i + 1
+        return i
 
     def _parse_wopen(self, s: bytes, i: int) -> int:
         c = s[i : i + 1]
